@@ -32,7 +32,8 @@ func c08Alphabet() []fsx.Op {
 // every procedure and handle position, with otherwise valid arguments
 func c08Probes(h string) []fsx.Op {
 	return []fsx.Op{
-		{K: "GETATTR", H: h}, {K: "SETATTR", H: h, NoSize: true, Mtime: 777}, {K: "SETATTR", H: h, Size: 3}, {K: "LOOKUP", H: h, N: "a"}, {K: "LOOKUP", H: h, N: "."}, {K: "ACCESS", H: h},
+		{K: "GETATTR", H: h}, {K: "SETATTR", H: h, NoSize: true, Mtime: 777}, {K: "SETATTR", H: h, NoSize: true, Perm: 1}, {K: "SETATTR", H: h, NoSize: true, Perm: 6}, {K: "SETATTR", H: h, NoSize: true, STime: 3},
+		{K: "SETATTR", H: h, NoSize: true}, {K: "SETATTR", H: h, Size: 3}, {K: "LOOKUP", H: h, N: "a"}, {K: "LOOKUP", H: h, N: "."}, {K: "ACCESS", H: h},
 		{K: "READLINK", H: h}, {K: "READ", H: h, Off: 0, Cnt: 100}, {K: "WRITE", H: h, Off: 0, Cnt: 5, Pat: 9, Stable: 2},
 		{K: "CREATE", H: h, N: "probe-c", As: "_"}, {K: "MKDIR", H: h, N: "probe-m", As: "_"}, {K: "SYMLINK", H: h, N: "probe-s", Target: "t", As: "_"},
 		{K: "REMOVE", H: h, N: "probe-c"}, {K: "RMDIR", H: h, N: "probe-m"}, {K: "REMOVE", H: h, N: "probe-s"},
@@ -132,6 +133,7 @@ func c08DirAlphabet() []fsx.Op {
 		{K: "RENAME", H: "root/d", N: "f", H2: "root/d", N2: "e"},
 		{K: "RENAME", H: "root", N: "g", H2: "root", N2: "d"}, // over a directory that may be non-empty (must fail) or empty
 		{K: "RMDIR", H: "root/d", N: "e"}, {K: "RMDIR", H: "root/d", N: "f"}, {K: "RMDIR", H: "root", N: "d"}, {K: "RMDIR", H: "root", N: "g"},
+		{K: "REMOVE", H: "root/d", N: "e"}, {K: "REMOVE", H: "root", N: "d"}, // REMOVE of a directory (the server accepts it for an empty one)
 		{K: "MKDIR", H: "root", N: "d"}, {K: "MKDIR", H: "root/d", N: "e"}, {K: "RESTART"},
 	}
 }
